@@ -398,9 +398,11 @@ void convolve_2d_impl(SrcView const& src_view, DstView const& dst_view, Kernel c
                     if (row_boundary >= 0 && row_boundary < src_view.height() &&
                         col_boundary >= 0 && col_boundary < src_view.width())
                     {
+                        // both factors are converted first: the product of a 32 bit channel and an
+                        // integral tap was formed in their common type (5u * -1 == 4294967291)
                         aux_total +=
-                            src_view(col_boundary, row_boundary)[0] *
-                            kernel.at(flip_ker_col, flip_ker_row);
+                            static_cast<float>(src_view(col_boundary, row_boundary)[0]) *
+                            static_cast<float>(kernel.at(flip_ker_col, flip_ker_row));
                     }
                 }
             }
